@@ -8,6 +8,7 @@ import (
 	"go/parser"
 	"go/token"
 	"go/types"
+	"os"
 	"sort"
 	"strconv"
 	"strings"
@@ -334,3 +335,5 @@ func (c *Ctx) undecidedToFindings(r *shape.Result, rule string) {
 func retStreams(r *shape.Result) []*shape.Stream {
 	return shape.StreamsOf(r.Ret)
 }
+
+func readFile(path string) ([]byte, error) { return os.ReadFile(path) }
